@@ -218,6 +218,19 @@ def evaluate(spec, case, impl_entry, model_entry):
     return ctx
 
 
+def call_transitions(spec, case, ilines, meta):
+    fn = spec.get("transitions")
+    if fn is None:
+        return []
+    try:
+        import inspect
+        if len(inspect.signature(fn).parameters) >= 3:
+            return fn(case, ilines, meta)
+    except (TypeError, ValueError):
+        pass
+    return fn(case, ilines)
+
+
 def eval_single(spec, case):
     impl, model, _ = run_both([case], "one")
     return evaluate(spec, case, impl.get(0), model.get(0))
@@ -414,7 +427,7 @@ def run_check(prop, tier, seed, replay, ncases, no_build=False):
                 ilines = impl.get(j, ([], []))[0]
                 h = hashlib.sha1(("\n".join(ilines) + case["header"]).encode()).hexdigest()
                 traces.add(h)
-                tags = spec["transitions"](case, ilines) if "transitions" in spec else []
+                tags = call_transitions(spec, case, ilines, impl.get(j, ([], []))[1])
                 for tg in tags:
                     hist[tg] = hist.get(tg, 0) + 1
                 if spec["nontrivial"](case, ilines, tags):
@@ -432,6 +445,16 @@ def run_check(prop, tier, seed, replay, ncases, no_build=False):
         k = match_known(prop, case, what)
         if k:
             known_hits.append(k)
+            if ctx.monitor and ctx.disagree and "correspondence" not in reported_kinds:
+                # the known finding explains the monitor, not a disagreement between model and code
+                reported_kinds.add("correspondence")
+                d = ctx.disagree
+                payload = {"property": prop, "kind": "correspondence",
+                           "broken": "%s: line %d model %r impl %r" % (spec["group"], d[0], d[1], d[2]),
+                           "case": case, "seed": seed,
+                           "note": "model and implementation disagree on a case that also matches a known finding"}
+                violations.append(("correspondence", write_replay(prop, seed, idx, payload), " no-failing-input-found"))
+                idx += 1
             continue
         if what in reported_kinds:
             continue
